@@ -2,16 +2,20 @@
 from props.C01 import ASSUMPTIONS as A01, TRUSTED as T01
 from props.combine_kernels import combine_tasks, combine_canaries
 
-ASSUMPTIONS = A01 + ["mode selection, task generators and offset re-mapping are covered by the bounded run-time layer in this round"]
+ASSUMPTIONS = A01 + ["mode selection, task generators and offset re-mapping are proved on bounded skeletons (3 boxes over 2 interleaved "
+                     "files, concrete names, symbolic offsets; generators run eagerly) and exercised by the bounded run-time layer; "
+                     "the workers are proved unbounded under the layout preconditions the mode decision establishes"]
 TRUSTED = T01 + ["T-SER; pool.map/imap ordered (assumed)"]
 
 
 def tasks(tier):
-    return combine_tasks("C06")
+    from props.combine_parents import parent_tasks
+    return combine_tasks("C06") + parent_tasks(tier)
 
 
 def canaries(tier):
-    return combine_canaries()
+    from props.combine_parents import parent_canaries
+    return combine_canaries() + parent_canaries()
 
 
 SCENARIO_TIMEOUT = 400
